@@ -351,7 +351,7 @@ var c07Cases = []c07Case{
 	{"groupByInt", "l.groupByInt(x->x%2)", nil, 0},
 	{"uniqueInt", "l.uniqueInt(x->x)", nil, 0},
 	{"groupByEqual", "l.groupByEqual(x->x)", nil, 0},
-	{"movingWindow", "l.movingWindow(x->x).map(w->w.size())", nil, 0},
+	{"movingWindow", "l.movingWindow(x->x)", nil, 0},
 	{"containsItem", "[a ~ l, l ~ l+[a]]", func(in c07In) (value.Value, bool) {
 		has := false
 		for _, x := range in.l {
@@ -520,8 +520,8 @@ func c07Jobs(tier string, seed int64) []string {
 			if tier != "thorough" && n == 2 && c.ref != nil && !strings.HasPrefix(c.name, "combine") {
 				continue
 			}
-			if c.name == "movingWindow" && (n > 2 || (tier != "thorough" && n > 1)) {
-				continue // float keys of symbolic ints: expensive FP queries
+			if c.name == "movingWindow" && n > 3 {
+				continue // float keys of symbolic ints: FP queries
 			}
 			jobs = append(jobs, c.name+":"+strconv.Itoa(n))
 		}
@@ -549,6 +549,13 @@ func c07Run(job string) {
 	}
 	in := c07In{}
 	for i := 0; i < n; i++ {
+		if name == "movingWindow" {
+			// the keys are compared as float64: enumerated from a pool instead of symbolic (FP queries
+			// on converted 64-bit ints do not finish)
+			pool := []value.Int{-3, -1, 0, 1, 2, 4, 5}
+			in.l = append(in.l, pool[sym.Choice("l"+strconv.Itoa(i), len(pool))])
+			continue
+		}
 		in.l = append(in.l, value.Int(sym.Int64("l"+strconv.Itoa(i))))
 	}
 	in.m = []value.Int{value.Int(sym.Int64("m0")), value.Int(sym.Int64("m1"))}
@@ -649,6 +656,17 @@ func c07Run(job string) {
 			}
 		}
 		sym.Assert(total == len(in.l), "groups-partition-the-list")
+		if total == len(in.l) {
+			var all []value.Int
+			for _, g := range groups {
+				if gm, ok := g.(value.Map); ok {
+					vv, _ := gm.Get("values")
+					ms, _ := c07Ints(vv)
+					all = append(all, ms...)
+				}
+			}
+			c07Permutation(in.l, all)
+		}
 		// group keys pairwise distinct
 		for i := range groups {
 			for j := i + 1; j < len(groups); j++ {
@@ -658,8 +676,34 @@ func c07Run(job string) {
 			}
 		}
 	case "movingWindow":
-		out, ok := c07Ints(got.v)
-		sym.Assert(ok && len(out) == len(in.l), "one-window-per-item")
+		// window i = the items from start_i to i, start advancing while the keys differ by more than 1
+		wl, ok := got.v.(*value.List)
+		sym.Assert(ok, "windows-list")
+		if !ok {
+			return
+		}
+		ws, err := wl.ToSlice(emptyStack())
+		sym.Assert(err == nil && len(ws) == len(in.l), "one-window-per-item")
+		if err != nil || len(ws) != len(in.l) {
+			return
+		}
+		start := 0
+		for i := range in.l {
+			for {
+				d := int64(in.l[i]) - int64(in.l[start])
+				if !(d > 1 || d < -1) {
+					break
+				}
+				start++
+			}
+			got, ok := c07Ints(ws[i])
+			sym.Assert(ok && len(got) == i-start+1, "window-extent")
+			if ok && len(got) == i-start+1 {
+				for k := range got {
+					sym.Assert(got[k] == in.l[start+k], "window-items")
+				}
+			}
+		}
 	}
 	sym.Reach("end")
 }
